@@ -40,11 +40,18 @@ bspline(const double *knots, double x, int i, int n)
 			return 0.0;
 	}
 
-	result = (x - knots[i])*bspline(knots, x, i, n-1) /
-	    (knots[i+n] - knots[i]);
-	result += (knots[i+n+1] - x)*bspline(knots, x, i+1, n-1) /
-	    (knots[i+n+1] - knots[i+1]);
-
+	/*
+	 * A term over a zero-length knot span (repeated knots) is zero by
+	 * convention; evaluating it would be 0/0.
+	 */
+	result = 0;
+	if (knots[i+n] > knots[i])
+		result += (x - knots[i])*bspline(knots, x, i, n-1) /
+		    (knots[i+n] - knots[i]);
+	if (knots[i+n+1] > knots[i+1])
+		result += (knots[i+n+1] - x)*bspline(knots, x, i+1, n-1) /
+		    (knots[i+n+1] - knots[i+1]);
+	
 	return result;
 }
 
